@@ -2,6 +2,7 @@ import KrakenModel.Util.LTS
 import KrakenModel.Model.Tiered
 import KrakenModel.Proof.C09Ghost
 import KrakenModel.Proof.C09Dead
+import KrakenModel.Proof.C09Main
 /-
   C09  The tiered store never loses or corrupts a completed blob or metadata update.
 
@@ -79,6 +80,49 @@ theorem not_tiered_safe : ¬ tiered_safe_target := by
   intro h
   have hs := (h 4 64 1 (by decide) (by decide) witness).1 0 [0xb1] (by decide) (by decide)
   exact absurd hs.1 (by decide)
+
+/-- **The property for every schedule outside the class of the known finding.** For every
+configuration, any number of flush workers and every schedule in which no key is created while the
+flusher still knows a previous incarnation of it — a queued flush or a flush in flight (`pre`) —
+`Safe` holds: a completed blob that has not been evicted from disk opens (unscoped and under the
+complete scope) with exactly its bytes and reports its last metadata update for every suffix, however
+the worker steps (memOpen, disk.Create, each read of the copy, MarkComplete, every metadata read and
+write, the dirty check, the unban, the failure handler) interleave with client operations and memory
+pressure; and a deleted key is invisible. -/
+theorem tiered_safe_partial (mc dc nw : Nat) (h1 : mc < U64) (h2 : dc < U64) (sched : List Act)
+    (hclass : (gsys mc dc nw).WFHist pre (gsys mc dc nw).init sched) : Safe ((gsys mc dc nw).run sched) :=
+  safe_of_inv2 (inv2_run mc dc nw h1 h2 sched hclass)
+
+/-- the same at every prefix of the schedule (the property holds all along the run, not only at its end) -/
+theorem tiered_safe_partial_prefix (mc dc nw : Nat) (h1 : mc < U64) (h2 : dc < U64) (sched more : List Act)
+    (hclass : (gsys mc dc nw).WFHist pre (gsys mc dc nw).init (sched ++ more)) :
+    Safe ((gsys mc dc nw).run sched) := by
+  apply tiered_safe_partial mc dc nw h1 h2 sched
+  have : ∀ (l l' : List Act) (s : GState), (gsys mc dc nw).WFHist pre s (l ++ l') → (gsys mc dc nw).WFHist pre s l := by
+    intro l
+    induction l with
+    | nil => intro _ _ _; trivial
+    | cons a l ih => intro l' s h; exact ⟨h.1, ih l' _ h.2⟩
+  exact this sched more _ hclass
+
+/-! non-vacuity: a schedule of the class with a flush, a metadata update racing the flush, memory
+pressure and a delete; the property's premises are met and its conclusion is checked by evaluation -/
+
+def inClass : List Act :=
+  [.client (.create 0 2 [0xa1, 0xa2]), .client (.setMd 0 .any ⟨0, true, [1]⟩), .client (.markComplete 0),
+   .work 0, .work 0, .work 0, .work 0, .work 0,            -- … the worker is copying
+   .client (.setMd 0 .any ⟨2, true, [3]⟩),                  -- a metadata update during the flush
+   .work 0, .work 0, .work 0, .work 0, .work 0, .work 0, .work 0, .work 0, .work 0, .work 0, .work 0, .work 0,
+   .work 0, .work 0, .work 0, .work 0, .work 0, .work 0,
+   .client (.create 9 4 []),                                -- memory pressure evicts key 0 from memory
+   .client (.create 1 1 [7]), .client (.delete 1 .any)]
+
+example : (gsys 4 64 1).WFHist pre (gsys 4 64 1).init inClass := by decide
+example : ((gsys 4 64 1).run inClass).g.done 0 = some [0xa1, 0xa2] := by decide
+example : ((gsys 4 64 1).run inClass).t.mem.blobs.get 0 = none := by decide
+example : openRead ((gsys 4 64 1).run inClass).t 0 .complete = some [0xa1, 0xa2] := by decide
+example : readMd ((gsys 4 64 1).run inClass).t 0 2 = some (some [3]) := by decide
+example : visible ((gsys 4 64 1).run inClass).t 1 = false := by decide
 
 example : ((gsys 4 64 1).run witness).g.done 0 = some [0xb1] := by decide
 example : openRead ((gsys 4 64 1).run witness).t 0 .any = some [] := by decide
